@@ -112,7 +112,39 @@ func runC08(c *Collector, r *Rng, thorough bool) {
 		op, obs, out, err, p = execEncUnprot(uh)
 		c08Check(c, "enc/unprotected", op, obs, out, err, p, "DUnprot", func() ([]byte, error) { return uh.MarshalCBOR() }, reps, inDataModel(map[any]any(uh), 0))
 		// ---- messages ----
+		deepV := func() any { // a deeply nested extension parameter: the encoders take any depth the decoders admit
+			var v any = int64(1)
+			for dd := pick(r, []int{5, 7, 8, 10, 14, 20}); dd > 0; dd-- {
+				if dd%2 == 0 {
+					v = []any{v}
+				} else {
+					v = map[any]any{int64(dd): v}
+				}
+			}
+			return v
+		}
 		m := &cose.Sign1Message{Headers: genGoHeaders(r, cfg, alg, true, r.Chance(1, 3)), Payload: genGoPayload(r), Signature: pick(r, [][]byte{genSigBytes(r), genSigBytes(r), nil, {}})}
+		if i%5 == 2 && len(m.Headers.RawUnprotected) == 0 && len(m.Headers.RawProtected) == 0 {
+			if m.Headers.Unprotected == nil {
+				m.Headers.Unprotected = cose.UnprotectedHeader{}
+			}
+			m.Headers.Unprotected[int64(-700002)] = deepV()
+			if m.Headers.Protected != nil && r.Bool() {
+				m.Headers.Protected[int64(-700003)] = deepV()
+			}
+		}
+		if i%5 == 3 && len(m.Headers.RawUnprotected) == 0 && headersInModel(&m.Headers) {
+			// countersignatures that are countersigned in turn, as lists
+			inner := &cose.Countersignature{Headers: cose.Headers{Protected: cose.ProtectedHeader{cose.HeaderLabelAlgorithm: alg}, Unprotected: cose.UnprotectedHeader{}}, Signature: []byte{7}}
+			for dd := 1 + r.Intn(4); dd > 0; dd-- {
+				inner = &cose.Countersignature{Headers: cose.Headers{Protected: cose.ProtectedHeader{cose.HeaderLabelAlgorithm: alg}, Unprotected: cose.UnprotectedHeader{int64(11): []*cose.Countersignature{inner}}}, Signature: []byte{8}}
+			}
+			if m.Headers.Unprotected == nil {
+				m.Headers.Unprotected = cose.UnprotectedHeader{}
+			}
+			delete(m.Headers.Unprotected, int64(7))
+			m.Headers.Unprotected[int64(11)] = []*cose.Countersignature{inner}
+		}
 		tagged := r.Bool()
 		kind := "DSign1U"
 		if tagged {
@@ -398,6 +430,10 @@ func runC08(c *Collector, r *Rng, thorough bool) {
 				}
 				op, obs, out, err, p := execEncKey(&k)
 				c08Check(c, "enc/key", op, obs, out, err, p, "DKey", func() ([]byte, error) { return k.MarshalCBOR() }, reps, false)
+				if err == nil && !p {
+					// the serialisation parses back, also into a Key variable that held another key before
+					decodeKind("DKey", out)
+				}
 			}
 		}
 	}
@@ -562,7 +598,7 @@ func runC09(c *Collector, r *Rng, thorough bool) {
 	keys := realKeySet(r)
 	// header values outside int64 (big.Int in memory): bignums and plain integers of 64 bits, in either bucket of the
 	// body, of a signer and of a countersignature; whatever the decoder accepts survives the clearing of the raw bytes
-	bigs := []string{"c2488000000000000000", "c248ffffffffffffffff", "c249010000000000000000", "c24105", "c240", "3b8000000000000000", "3bffffffffffffffff",
+	bigs := []string{"00", "20", "1b7fffffffffffffff", "c2488000000000000000", "c248ffffffffffffffff", "c249010000000000000000", "c24105", "c240", "3b8000000000000000", "3bffffffffffffffff",
 		"3b7fffffffffffffff", "1b7fffffffffffffff", "1b8000000000000000", "c3488000000000000000", "c349010000000000000000", "c34105", "c348ffffffffffffffff"}
 	for _, bv := range bigs {
 		val, _ := refParseFull(unhex(bv))
@@ -605,6 +641,33 @@ func runC09(c *Collector, r *Rng, thorough bool) {
 			}
 			c09Cleared(c, kind, data, rep)
 			c09Partial(c, kind, data, d.reenc, rep)
+		}
+	}
+	// registered and unregistered alg values (the reserved value 0, private use, large) in the protected bucket of every
+	// layer: accepted on decoding means encodable again from the decoded form
+	for _, av := range []int64{0, -7, -65537, 1 << 31, -1 << 40} {
+		pb := wBstr(wMap(-1, wInt(1, -1), wInt(av, -1)).Ser(), -1)
+		for _, tk := range []struct {
+			kind string
+			t    *W
+		}{
+			{"DSign1", wTag(18, -1, wArr(-1, pb, wMap(-1), wBstr([]byte("p"), -1), wBstr([]byte{1, 2}, -1)))},
+			{"DSign1U", wArr(-1, pb, wMap(-1), wBstr([]byte("p"), -1), wBstr([]byte{1, 2}, -1))},
+			{"DSignature", wArr(-1, pb, wMap(-1), wBstr([]byte{1, 2}, -1))},
+			{"DSignMsg", wTag(98, -1, wArr(-1, pb, wMap(-1), wBstr([]byte("p"), -1), wArr(-1, wArr(-1, pb, wMap(-1), wBstr([]byte{1, 2}, -1)))))},
+			{"DSign1", wTag(18, -1, wArr(-1, wBstr(nil, -1), wMap(-1, wInt(11, -1), wArr(-1, pb, wMap(-1), wBstr([]byte{3}, -1))), wBstr([]byte("p"), -1), wBstr([]byte{1, 2}, -1)))},
+		} {
+			data := tk.t.Ser()
+			d := decodeCase(c, "alg-values/"+tk.kind, tk.kind, data)
+			if d.err != nil || d.paniced {
+				continue
+			}
+			rep := map[string]any{"kind": tk.kind, "data": hx(data), "alg": av}
+			if d.reerr != nil || !bytes.Equal(d.reenc, data) {
+				c.Fail("C09/reencode-differs", fmt.Sprintf("re-encoding a canonical message changed it: %x (%v)", d.reenc, d.reerr), rep)
+				continue
+			}
+			c09Cleared(c, tk.kind, data, rep)
 		}
 	}
 	// a message obtained through VerifyHashEnvelope is a decoded message like any other: re-encoding it reproduces
@@ -858,7 +921,9 @@ func c09Cleared(c *Collector, kind string, data []byte, rep map[string]any) {
 		}
 	}
 	if err != nil {
-		c.Eval("cleared/unencodable", hx(data), false)
+		// an accepted message whose decoded form cannot be encoded has no canonical form
+		c.Eval("cleared/unencodable", hx(data), true)
+		c.Fail("C09/cleared-not-encodable", "a decoded message cannot be encoded any more once its retained raw bytes are discarded: "+err.Error(), rep)
 		return
 	}
 	// the model's view of the cleared encoding
